@@ -6,17 +6,29 @@ PLAN = dict(
         step("footprint-x86", "codegen-x86", "heap-x86", 150, 6000, shards_thorough=12, viol=r"class=heap-footprint"),
         step("footprint-families-x86", "c10-x86", "c10-x86", 0, 0, viol=r"class=heap-footprint"),
         step("footprint-heapops-x86", "heapops-x86", "heapops-x86", 300, 6000, viol=r"class=heap-footprint"),
+        # the same decision on the REAL AArch64 / RISC-V instruction lists (Sem/A64Heap.v, Sem/RVHeap.v)
+        step("footprint-a64", "heapgen-a64", "heap-a64", 60, 3000, shards_thorough=12, viol=r"class=heap-footprint"),
+        step("footprint-families-a64", "c10-a64", "c10-a64", 0, 0, viol=r"class=heap-footprint"),
+        step("footprint-rv", "heapgen-rv", "heap-rv", 60, 3000, shards_thorough=12, viol=r"class=heap-footprint"),
+        step("footprint-families-rv", "c10-rv", "c10-rv", 0, 0, viol=r"class=heap-footprint"),
     ],
     rule="(i) every corpus program, real x86-64 code on the ISA model, 4 argument tuples: blocks below the final frontier <= peak (counted + deferred) "
          "blocks at any statement boundary + 2 (the theorem's constant is 1; the tag slack<n> records the observed difference); (ii) allocation-loop "
          "families corpus/c10/*.sc (lists, trees, closure chains, shared "
          "structures, 8-field records built and dropped n times): frontier after n = 8 equals frontier after n = 32. Non-trivial = the program allocates; "
          "(iii) heapops-x86: random operation sequences with the real code of memory.rs on the ISA model: at the end the frontier is EXACTLY "
-         "peak blocks in use + 1 blocks above the base (peak sampled after every operation)",
+         "peak blocks in use + 1 blocks above the base (peak sampled after every operation); "
+         "(iv) (i) and (ii) on the REAL AArch64 and RISC-V instruction lists (heap-a64, heap-rv, c10-a64, c10-rv; inputs as C09 (3): heap-focused "
+         "linear AxCut programs with contexts across the AArch64 register file / up to the RISC-V capacity, the directed family `wide`, and the "
+         "loop families corpus/c10 + corpus/heapwide, print-free variants on RISC-V); the bound is frontier blocks <= peak + 1 there; for the loop "
+         "families also the number of blocks ever WRITTEN (high-water mark of the ISA model, independent of the invariant) after 8 and after 32 "
+         "iterations must coincide, so a block leaked per round (wrong count, lost free-list link; every result right) is reported as "
+         "class=heap-footprint-grows here and as class=heap-invariant by C09",
     explanation="theorems (operation traces of the abstract allocator from its initial state): the frontier moves only when both free lists are "
                 "exhausted (acquire_frontier); footprint_bound: frontier blocks <= peak blocks in use + 1; footprint_exact: equality once the peak "
                 "has been attained; loop_space_constant: traces with equal peaks end with equal frontiers. The lifting from traces to programs is "
                 "checked by execution, not proved",
     assumptions=["as C09"],
-    trusted=["coq/Sem/HeapCheck.v", "coq/Sem/X86Sem.v", "coq/Sem/AxSem.v + Sem/AxTrace.v", "coq/Model/RunHeapOps.v, harness/src/cmd_heapops.rs"],
+    trusted=["coq/Sem/HeapCheck.v", "coq/Sem/X86Sem.v", "coq/Sem/A64Sem.v", "coq/Sem/RVSem.v", "coq/Sem/AxSem.v + Sem/AxTrace.v",
+             "coq/Sem/HeapLock.v, Sem/X86Heap.v, Sem/A64Heap.v, Sem/RVHeap.v", "coq/Model/RunHeapOps.v, harness/src/cmd_heapops.rs"],
 )
